@@ -38,6 +38,12 @@ def inputs(ctx, big=False):
     spaces = [" ", "\t", "\n", "\x0b", "\x0c", "\x1c", "\x1f", "\x85", "\xa0", "\u1680", "\u2000", "\u2003", "\u200a", "\u2028", "\u2029", "\u202f", "\u205f", "\u3000"]
     for _ in range(6000 if (big or not ctx.quick()) else 600):
         xs.append("".join(ctx.rng.choice(["foo", "Bar", "ß", "x"]) + ctx.rng.choice(spaces) * ctx.rng.randint(0, 2) for _ in range(ctx.rng.randint(1, 4))))
+    # boundary lengths (labels are limited to 999 characters by CommonMark, not by unikey), long runs
+    for k in (254, 255, 256, 499, 500, 501, 997, 998, 999, 1000, 1001, 2048):
+        xs += ["a" * k + " b", "x" * k + "\u00df", " " * k + "a", "A" * k, "\u0130" * (k // 8) + " i"]
+    # letters that match [a-z] case-insensitively in a str pattern although they are not ASCII (Kelvin sign, long s, dotless / dotted i)
+    for ch in ("\u212a", "\u017f", "\u0131", "\u0130"):
+        xs += ["data:image/png;base64,iVBORw0%sGgo=" % ch, "http://e%sample.com/%s" % (ch, ch), "DATA:IMAGE/PNG;BASE64,%s" % ch, "javascript%s:x" % ch, "%%4%s" % ch, ch + "&amp;" + ch]
     return xs
 
 
